@@ -507,3 +507,121 @@ pub fn areal_scene_strategy() -> impl Strategy<Value = ArealScene> {
         },
     )
 }
+
+/// Byte decoders (libFuzzer path): the same raw descriptions as the proptest
+/// strategies, drawn from `arbitrary::Unstructured`, pushed through the same builders.
+pub mod bytes {
+    use super::*;
+    use arbitrary::Unstructured;
+
+    pub fn raw_geom(u: &mut Unstructured) -> arbitrary::Result<RawGeom> {
+        let kind = u.int_in_range(0..=NKINDS - 1)?;
+        let mask: u64 = u.arbitrary()?;
+        let cells: Vec<bool> = (0..BOARD * BOARD).map(|i| (mask >> i) & 1 == 1).collect();
+        let n = u.int_in_range(1..=9usize)?;
+        let mut pts = vec![];
+        for _ in 0..n {
+            pts.push((u.arbitrary::<u8>()?, u.int_in_range(0..=12u8)?, u.int_in_range(0..=12u8)?, u.arbitrary::<u8>()?));
+        }
+        // keep empties rare on this path too
+        let mut flags: u32 = u.arbitrary()?;
+        if u.int_in_range(0..=15u8)? != 0 {
+            flags |= 1 << 31;
+        }
+        Ok(RawGeom { kind, cells, pts, flags })
+    }
+
+    pub fn mat(u: &mut Unstructured) -> arbitrary::Result<Mat> {
+        if u.int_in_range(0..=2u8)? == 0 {
+            return Ok([1, 0, 0, 1]);
+        }
+        let m = [u.int_in_range(-3..=3i64)?, u.int_in_range(-3..=3i64)?, u.int_in_range(-3..=3i64)?, u.int_in_range(-3..=3i64)?];
+        Ok(if mat_det(&m) == 0 { [1, 0, 0, 1] } else { m })
+    }
+
+    pub fn xf(u: &mut Unstructured) -> arbitrary::Result<Xf> {
+        Ok(match u.int_in_range(0..=3u8)? {
+            0 => Xf::ID,
+            1 => Xf { d4: u.int_in_range(0..=7u8)?, k: 0, tx: 0, ty: 0 },
+            2 => Xf { d4: u.int_in_range(0..=7u8)?, k: u.int_in_range(-30..=30i8)?, tx: u.int_in_range(-1000..=1000i64)?, ty: u.int_in_range(-1000..=1000i64)? },
+            _ => Xf { d4: u.int_in_range(0..=7u8)?, k: u.int_in_range(-8..=8i8)?, tx: u.int_in_range(-(1i64 << 40)..=(1i64 << 40))?, ty: u.int_in_range(-(1i64 << 40)..=(1i64 << 40))? },
+        })
+    }
+
+    pub fn pair(u: &mut Unstructured) -> arbitrary::Result<Option<Pair>> {
+        let (ra, rb) = (raw_geom(u)?, raw_geom(u)?);
+        let g = u.int_in_range(1..=BOARD)?;
+        let m = mat(u)?;
+        let far = if u.int_in_range(0..=12u8)? == 0 {
+            let d = (u.int_in_range(-3..=3i64)? * 14, u.int_in_range(-3..=3i64)? * 14);
+            if d == (0, 0) { None } else { Some(d) }
+        } else {
+            None
+        };
+        Ok(build_pair(&ra, &rb, g, &m, far))
+    }
+
+    pub fn scene(u: &mut Unstructured, max_partners: usize) -> arbitrary::Result<Option<Scene>> {
+        let ra = raw_geom(u)?;
+        let g = u.int_in_range(1..=BOARD)?;
+        let m = mat(u)?;
+        let n = u.int_in_range(1..=max_partners)?;
+        let a0 = match build_geom(&ra, g, &[], None) {
+            Some(a) => a,
+            None => return Ok(None),
+        };
+        let pool = feature_pool(&a0);
+        let a = apply_mat(&a0, &m);
+        if !in_relate_domain(&a) {
+            return Ok(None);
+        }
+        let mut partners = vec![];
+        for _ in 0..n {
+            let rb = raw_geom(u)?;
+            if let Some(b) = build_geom(&rb, g, &pool, Some(cells_of(&ra))) {
+                let b = apply_mat(&b, &m);
+                if in_relate_domain(&b) {
+                    partners.push(b);
+                }
+            }
+        }
+        Ok(if partners.is_empty() { None } else { Some(Scene { a, partners }) })
+    }
+
+    pub fn areal_scene(u: &mut Unstructured) -> arbitrary::Result<Option<ArealScene>> {
+        let (mut ra, mut rb, mut rl) = (raw_geom(u)?, raw_geom(u)?, raw_geom(u)?);
+        ra.kind = *u.choose(&[5u8, 6, 10, 11, 12])?;
+        rb.kind = *u.choose(&[5u8, 6, 10, 11, 12])?;
+        rl.kind = *u.choose(&[2u8, 3, 4])?;
+        let g = u.int_in_range(1..=BOARD)?;
+        let m = mat(u)?;
+        let a0 = match build_geom(&ra, g, &[], None) { Some(x) => x, None => return Ok(None) };
+        let pool = feature_pool(&a0);
+        let b0 = match build_geom(&rb, g, &pool, Some(cells_of(&ra))) { Some(x) => x, None => return Ok(None) };
+        rl.flags &= !1;
+        let l0 = match build_geom(&rl, g, &pool, None) { Some(x) => x, None => return Ok(None) };
+        let (a, b, line) = (apply_mat(&a0, &m), apply_mat(&b0, &m), apply_mat(&l0, &m));
+        if !in_relate_domain(&a) || !in_relate_domain(&b) || !in_relate_domain(&line) {
+            return Ok(None);
+        }
+        Ok(Some(ArealScene { a, b, line }))
+    }
+
+    /// a finite f64 from raw bits, forced into the exactness domain of the adaptive predicates
+    pub fn f64_in_range(u: &mut Unstructured) -> arbitrary::Result<f64> {
+        Ok(match u.int_in_range(0..=3u8)? {
+            0 => u.int_in_range(-64..=64i32)? as f64,
+            1 => {
+                // small integer scaled by a power of two plus a few ulps
+                let v = u.int_in_range(-1024..=1024i32)? as f64 * 2f64.powi(u.int_in_range(-40..=40i32)?);
+                let n = u.int_in_range(-3..=3i64)?;
+                if v == 0.0 { v } else { f64::from_bits((v.to_bits() as i64 + n) as u64) }
+            }
+            _ => {
+                let bits: u64 = u.arbitrary()?;
+                let v = f64::from_bits(bits);
+                if v.is_finite() && (v == 0.0 || (v.abs() >= 2f64.powi(-300) && v.abs() <= 2f64.powi(300))) { v } else { (bits % 2048) as f64 - 1024.0 }
+            }
+        })
+    }
+}
